@@ -22,7 +22,9 @@ type solverSpec struct {
 var solvers = []solverSpec{
 	{"z3-new", func(f string, t int) []string { return []string{"z3-new", fmt.Sprintf("-T:%d", t), f} }},
 	{"cvc5", func(f string, t int) []string {
-		return []string{"cvc5", fmt.Sprintf("--tlimit=%d", t*1000), "--incremental=false", f}
+		// (cvc5 1.0.3 rejects `--incremental=false`; non-incremental is its default.  With that flag every cvc5 run ended
+		// in an option error that was read as "no answer": the portfolio ran without cvc5 until this was noticed.)
+		return []string{"cvc5", fmt.Sprintf("--tlimit=%d", t*1000), f}
 	}},
 	{"z3", func(f string, t int) []string { return []string{"z3", fmt.Sprintf("-T:%d", t), f} }},
 }
@@ -50,6 +52,9 @@ func runSolverCtx(parent context.Context, s solverSpec, file string, timeout int
 	}
 	if strings.Contains(text, "timeout") || ctx.Err() != nil {
 		return "timeout", text, dt
+	}
+	if strings.Contains(text, "option") {
+		fmt.Fprintf(os.Stderr, "govc: solver %s rejected its command line: %s\n", s.name, first)
 	}
 	return "error", text, dt
 }
@@ -321,6 +326,43 @@ func (e *Engine) discharge(ob *Obligation, idx int) {
 			return
 		}
 	}
+	// learned hint "enc:<solver>+<encoding>": the attempt that proved this obligation on the unchanged tree goes first
+	// (ordering only: any answer but a proof falls through to the full pipeline below)
+	if h := e.hints[baseName(ob.Name)]; strings.HasPrefix(h, "enc:") && ob.Kind != "canary" {
+		parts := strings.SplitN(h[4:], "+", 2)
+		var sp *solverSpec
+		for i := range solvers {
+			if solvers[i].name == parts[0] {
+				sp = &solvers[i]
+			}
+		}
+		q := ""
+		if sp != nil && len(parts) == 2 {
+			switch parts[1] {
+			case "axioms":
+				q = fc.query(ob, true, false)
+			case "opaque":
+				q = fc.queryEnc(ob, encOpaque, false, nil)
+			case "opaque+lean":
+				q = fc.queryEnc(ob, encLean, false, nil)
+			}
+		}
+		if q != "" {
+			fh := base + ".hint.smt2"
+			os.WriteFile(fh, []byte(q), 0o644)
+			bud := e.timeout
+			if bud > 6 {
+				bud = 6
+			}
+			r, _, _ := runSolver(*sp, fh, bud)
+			e.rm(fh)
+			if r == "unsat" {
+				ob.Status, ob.Solver, ob.Time = "proved", h[4:], time.Since(t0).Seconds()
+				e.rm(f1)
+				return
+			}
+		}
+	}
 	type attempt struct {
 		s    solverSpec
 		file string
@@ -345,12 +387,29 @@ func (e *Engine) discharge(ob *Obligation, idx int) {
 		e.rm(f1)
 		return
 	}
-	res, out, _ := runSolver(solvers[0], f1, st1)
-	if res == "unsat" {
-		ob.Status, ob.Solver, ob.Time = "proved", "z3-new", time.Since(t0).Seconds()
-		e.rm(f1)
-		return
+	// stage 1 races z3-new and cvc5 on the plain encoding: the first proof wins; a `sat` of z3-new is final
+	s1ctx, s1cancel := context.WithCancel(context.Background())
+	type s1res struct{ who, res, out string }
+	s1ch := make(chan s1res, 2)
+	go func() { r, o, _ := runSolverCtx(s1ctx, solvers[0], f1, st1); s1ch <- s1res{"z3-new", r, o} }()
+	go func() { r, o, _ := runSolverCtx(s1ctx, solvers[1], f1, st1); s1ch <- s1res{"cvc5", r, o} }()
+	res, out := "", ""
+	for k := 0; k < 2; k++ {
+		r := <-s1ch
+		if r.res == "unsat" {
+			s1cancel()
+			ob.Status, ob.Solver, ob.Time = "proved", r.who, time.Since(t0).Seconds()
+			e.rm(f1)
+			return
+		}
+		if r.who == "z3-new" {
+			res, out = r.res, r.out
+			if r.res == "sat" {
+				break
+			}
+		}
 	}
+	s1cancel()
 	satBy := ""
 	if res == "sat" {
 		satBy = "z3-new"
